@@ -10,6 +10,7 @@ import (
 	"fmt"
 	"math/rand"
 	"net/url"
+	"path"
 	"sort"
 	"strconv"
 	"strings"
@@ -486,6 +487,7 @@ type Options struct {
 	Twins         bool    // documents sharing their path with the root on other hosts / schemes, prefix-named documents
 	Spellings     bool    // vary the spelling of references (./, absolute, …)
 	NestedPtrs    bool    // references to nested pointer targets
+	WholeDoc      bool    // a document that IS a schema, refers to itself with "#" and is referred to without a fragment
 	RefP          float64 // probability that a sub-schema position holds a $ref
 }
 
@@ -817,6 +819,29 @@ func Generate(r *rand.Rand, o Options) *World {
 			doc = doc.Set("paths", paths)
 		}
 		w.Docs[urls[d]] = doc
+	}
+	if o.WholeDoc {
+		// a recursive schema that is a whole document: it refers to itself with "#" (a reference to the document that
+		// CONTAINS it, not to the root of the expansion) and, sometimes, to a definition of the root's neighbour
+		ru, _ := url.Parse(urls[0])
+		tu := ru.ResolveReference(&url.URL{Path: "models/tree.json"})
+		props := wire.ObjV(wire.M("child", wire.ObjV(wire.M("$ref", wire.StrV("#")))),
+			wire.M("rest", wire.ObjV(wire.M("type", wire.StrV("array")), wire.M("items", wire.ObjV(wire.M("$ref", wire.StrV("#")))))),
+			wire.M("label", wire.ObjV(wire.M("type", wire.StrV("string")))))
+		if r.Intn(2) == 0 {
+			props = props.Set("up", wire.ObjV(wire.M("$ref", wire.StrV("../"+path.Base(ru.Path)+"#/definitions/"+PtrEscape(dn[0].defs[0])))))
+		}
+		w.Docs[tu.String()] = wire.ObjV(wire.M("type", wire.StrV("object")), wire.M("description", wire.StrV("whole-document tree")), wire.M("properties", props))
+		root := w.Docs[urls[0]]
+		defs, _ := root.Get("definitions")
+		defs = defs.Set("tree", wire.ObjV(wire.M("$ref", wire.StrV("models/tree.json"))))
+		if r.Intn(2) == 0 {
+			defs = defs.Set("forest", wire.ObjV(wire.M("type", wire.StrV("array")), wire.M("items", wire.ObjV(wire.M("$ref", wire.StrV("./models/tree.json#"))))))
+		}
+		root = root.Set("definitions", defs)
+		paths, _ := root.Get("paths")
+		paths = paths.Set("/tree", wire.ObjV(wire.M("get", wire.ObjV(wire.M("responses", wire.ObjV(wire.M("200", wire.ObjV(wire.M("description", wire.StrV("ok")), wire.M("schema", wire.ObjV(wire.M("$ref", wire.StrV("models/tree.json"))))))))))))
+		w.Docs[urls[0]] = root.Set("paths", paths)
 	}
 	return w
 }
